@@ -17,7 +17,7 @@ ASSUMPTIONS = [
     "load paths (gettz by name, path, open stream, ZoneInfoFile archive with link entries, pickle) are I/O glue: compared for equality and identical answers, not modelled",
 ]
 RULE = ("zones = distinct TZif files of /usr/share/zoneinfo (quick: 60 incl. a fixed list of unusual zones; thorough: all 447 "
-        "plus the right/ leap-second variants for the decoder) + 34 named synthetic shapes (incl. abbreviation tables of 132..256 bytes and zic-style suffix sharing) + seeded random tables + malformed streams; "
+        "plus the right/ leap-second variants for the decoder) + 37 named synthetic shapes (incl. abbreviation tables of 132..256 bytes, zic-style suffix sharing, and 129 / 200 / 256 types with type, flag and abbreviation indices >= 128) + seeded random tables + malformed streams; "
         "instants = every transition ± {0, 1 s, 30 min, 1 h, 2 h, Δ, Δ±1}; a case = (stream, instant); non-trivial = first ≤ t < last "
         "transition on a WF table (t < first counts for before_first)")
 
@@ -50,7 +50,11 @@ def correspondence(ctx):
         reqs.append("tzfile.fromutc %s %s" % (hx, Z.ilist(ups)))
         exp.append("ok " + " ".join(Z.impl_fromutc_line(z, t) for t in ups)); meta.append((name, "fromutc", ups))
         # the encoder of the spec: re-encode what the model decoded; the implementation must read it as the same zone
-        reqs.append("tzfile.reenc " + hx); exp.append(None); meta.append((name, "reenc", (z, line)))
+        # (only inside the canonical encoder's image: one private abbreviation per type must fit 256 bytes, RawWF)
+        if sum(len(t.abbr) + 1 for t in z._ttinfo_list) <= 256:
+            reqs.append("tzfile.reenc " + hx); exp.append(None); meta.append((name, "reenc", (z, line)))
+        else:
+            ctx.count("reenc_skipped_outside_encoder_image")
     got = ctx.driver(reqs)
     for q, e, g, (name, kind, pts) in zip(reqs, exp, got, meta):
         ctx.traces += 1
